@@ -40,7 +40,7 @@ def reserved_set():
 
 
 def floors(tier):
-    return {"pairs_judged": 500, "positions": 14, "collision_configs": 3, "namesake_calls": 40}
+    return {"pairs_judged": 500, "positions": 16, "collision_configs": 3, "namesake_calls": 40}
 
 
 def plan(seed, tier):
@@ -189,7 +189,8 @@ def judge(position, item, o, model, api):
             vals = [x for k, x in e["headers"] if k.lower() == "x-goog-request-params"]
         return dict(urllib.parse.parse_qsl(vals[0], keep_blank_values=True)) if vals else {}
 
-    if position in ("field", "flat", "flat_dotted", "path", "path_dotted", "path_dotted_parent", "body", "body_plain_uri", "query", "query_required", "routing", "routing_nested"):
+    if position in ("field", "flat", "flat_dotted", "path", "path_dotted", "path_dotted_parent", "body", "body_plain_uri", "query", "query_required", "routing", "routing_nested",
+                    "path_additional", "body_additional"):
         if o.get("attr") != w_:
             bad("attribute-name", f"field {w!r}: reachable attribute is {o.get('attr')!r}, expected {w_!r}")
     g = grpc_req()
@@ -266,6 +267,19 @@ def judge(position, item, o, model, api):
             bad("http-query", f"query {r['query']!r}: 'extra' should travel in the query")
         if jn in q or w in q:
             bad("http-query", f"body field also in query: {r['query']!r}")
+    elif position == "path_additional":
+        if getattr(gm, w) != "things/x":
+            bad("wire-field", f"server decoded {str(gm)[:160]!r}")
+        if path != f"/v1/things/x/pa{item['i']}":
+            bad("http-path", f"{path} (the request matches the additional binding /v1/{{{w}=things/*}}/pa{item['i']} only)")
+    elif position == "body_additional":
+        sub = getattr(gm, w)
+        if sub.other != "o" or getattr(sub, w) != "n1":
+            bad("wire-field", f"server decoded {str(gm)[:160]!r}")
+        if path != f"/v1/extras/e:ba{item['i']}":
+            bad("http-path", path)
+        if bj != {"other": "o", jn: "n1"}:
+            bad("http-body", f"REST body {body[:200]!r}: expected exactly the field named by the additional binding's body with key {jn!r}")
     elif position == "query":
         if getattr(gm, w) != "q v":
             bad("wire-field", f"server decoded {str(gm)[:160]!r}")
@@ -616,6 +630,14 @@ def in_runner(script):
                 Inner = lib.msg_cls(it["inner"])
                 iw = [a for a in (w, w + "_") if _has_field(Inner(), a)][0]
                 req = Req(**{"anchor": "anchors/a", "extra": "e1", w_: Inner(**{"other": "o", iw: "n1"})})
+                name = "call%d" % it["i"]
+            elif pos == "path_additional":
+                req = Req(**{w_: "things/x"})
+                name = "call%d" % it["i"]
+            elif pos == "body_additional":
+                Inner = lib.msg_cls(it["inner"])
+                iw = [a for a in (w, w + "_") if _has_field(Inner(), a)][0]
+                req = Req(**{"extra": "extras/e", w_: Inner(**{"other": "o", iw: "n1"})})
                 name = "call%d" % it["i"]
             elif pos in ("query", "query_required"):
                 req = Req(**{"anchor": "anchors/a", w_: "q v"})
